@@ -84,9 +84,23 @@ def _shots(t):
     return n
 
 
+def _build_term(term, num="py", build=None):
+    """one PauliTerm; `build` picks the constructor: dict in the listed (insertion) order, the string form with the
+    factors in the listed order ("2.0*Z8*X1"), or PauliTerm.from_iterable"""
+    PauliTerm = _lib()[5]
+    coeff = _coeff(term["c"], num)
+    if build == "str":
+        z = complex(coeff)
+        head = repr(float(z.real)) if z.imag == 0 else "(" + repr(z).strip("()") + ")"
+        return PauliTerm("*".join([head] + [f"{p}{int(q)}" for q, p in term["ops"]] + ([] if term["ops"] else ["I0"])))
+    if build == "iter":
+        return PauliTerm.from_iterable([(p, int(q)) for q, p in term["ops"]], coeff)
+    return PauliTerm({int(q): p for q, p in term["ops"]}, coeff)
+
+
 def _build_op(t):
     _, _, _, _, PauliSum, PauliTerm, _ = _lib()
-    terms = [PauliTerm({int(q): p for q, p in term["ops"]}, _coeff(term["c"], t.get("num", "py"))) for term in t["op"]]
+    terms = [_build_term(term, t.get("num", "py"), t.get("build")) for term in t["op"]]
     if t.get("term"):
         assert len(terms) == 1
         return terms[0]
@@ -137,7 +151,7 @@ class _Pool:
 
     def op(self, t):
         if self.share in ("ops", "both", "tasks"):
-            key = common.canon([t["op"], bool(t.get("term")), t.get("num", "py")])
+            key = common.canon([t["op"], bool(t.get("term")), t.get("num", "py"), t.get("build")])
             if key not in self.ops:
                 self.ops[key] = _build_op(t)
             return self.ops[key]
@@ -300,6 +314,27 @@ def _stub_runner():
                     raise ValueError("stub runner executes X/Y/Z/I circuits only")
             return Measurements([tuple(bits)] * int(n_samples))
     return Stub()
+
+
+def _numpy_simulator(seed):
+    """a BaseWavefunctionSimulator whose native step applies the library's own gate matrices with numpy – keeps
+    registers of 9..14 qubits cheap; sampling, get_exact_expectation_values -> get_expectation_value ->
+    get_sparse_operator are the library's code"""
+    common.use_repo()
+    import numpy as np
+    from orquestra.quantum.api.wavefunction_simulator import BaseWavefunctionSimulator
+
+    class NumpySimulator(BaseWavefunctionSimulator):
+        def _get_wavefunction_from_native_circuit(self, circuit, initial_state):
+            n = circuit.n_qubits
+            psi = np.asarray(initial_state, dtype=complex).reshape((2,) * n)
+            for op in circuit.operations:
+                qs = [int(q) for q in op.qubit_indices]
+                m = np.array(op.gate.matrix.tolist(), dtype=complex).reshape((2,) * (2 * len(qs)))
+                psi = np.tensordot(m, psi, axes=(list(range(len(qs), 2 * len(qs))), qs))
+                psi = np.moveaxis(psi, list(range(len(qs))), qs)
+            return psi.reshape(-1)
+    return NumpySimulator(seed=seed)
 
 
 def _err(e):
@@ -469,6 +504,21 @@ def corpus():
         # 70 measured tasks (longer than a 64-circuit submission), values follow the position
         {"kind": "averaging", "seed": 15, "share": "circuits", "tasks": [
             {"op": [_term(i + 1, [(i % 2, "Z")])], "circuit": _circ(2, [["X", 1]]), "shots": 1 + i % 3} for i in range(70)]},
+        # exact values on 10 / 12 qubits (numpy-backed simulator subclass): terms mixing an index >= 8 with a smaller
+        # one that sits in a later hash slot of a set (Z1*Z8, Z3*Z9), two-digit next to one-digit indices (2 vs 10),
+        # listed high-to-low, through the dict / string / from_iterable constructors; basis, product, entangled states
+        {"kind": "exact", "nomodel": True, "sim": "numpy", "tasks": [
+            {"op": [_term(2, [(8, "Z"), (1, "Z")]), _term(3, [(3, "Z"), (9, "Z")]), _term(5, [(0, "Z"), (8, "Z")]), _term(7, [])],
+             "circuit": _circ(10, [["X", 1], ["X", 9]]), "shots": None, "build": b} for b in ("dict", "str", "iter")]},
+        {"kind": "exact", "nomodel": True, "sim": "numpy", "tasks": [
+            {"op": [_term(2, [(10, "X"), (2, "Z")]), _term("1/2", [(11, "Y"), (9, "Z"), (1, "X"), (2, "Z"), (8, "Z")]),
+                    _term(3, [(2, "Z"), (10, "X")])],
+             "circuit": _circ(12, [["X", 2], ["H", 10], ["H", 1], ["RY", 11, {"const": "3/4", "terms": []}], ["CNOT", [1, 9]]]),
+             "shots": 0, "build": "str"}]},
+        {"kind": "pipeline", "seed": 16, "pi": True, "sim": "numpy", "share": "circuits", "tasks": [
+            {"op": [_term(2, [(8, "Z"), (1, "Z")]), _term(3, [(9, "Z")])], "build": "iter",
+             "circuit": _circ(10, [["RX", 1, {"const": 0, "terms": [["a", 1]]}], ["RY", 8, {"const": 1, "terms": [["b", 1]]}]]), "shots": 2}] * 2,
+         "maps": [[["a", 1], ["b", 0]], [["a", 0], ["b", 0]]]},
         # widths 9..12 and >= 64 (stub runner): mirrored supports
         {"kind": "averaging", "seed": 0, "runner": "stub", "tasks": [
             {"op": [_term(2, [(1, "Z")]), _term(3, [(8, "Z")]), _term(5, [(0, "Z"), (9, "Z")])], "circuit": _circ(10, [["X", 1], ["X", 9]]), "shots": 2},
@@ -491,15 +541,41 @@ def _pick_profile(rng, exact_only=True):
     return "tiny" if r < 0.8 else ("tiny+" if r < 0.9 else "huge+")
 
 
-def _rand_coeff(rng, allow_complex=True, profile="n", zeros=False):
+def _rand_coeff(rng, allow_complex=True, profile="n", zeros=False, imtiny=False):
+    """imtiny: the imaginary parts of this operator are all of size 2^-50..2^-46 (below 100 machine epsilons and
+    below 1e-5 of the real part); decided once per operator so that the sum of the imaginary parts stays exact"""
     if zeros and rng.random() < 0.06:
         return Fraction(0), Fraction(0)  # a zero coefficient is a legal coefficient
     sc = Fraction(2) ** rng.choice(_PROFILES[profile])
     re = Fraction(rng.choice([k for k in range(-32, 33) if k != 0]), 8) * sc
     im = Fraction(0)
     if allow_complex and rng.random() < 0.12:
-        im = Fraction(rng.randrange(-16, 17), 8) * (sc if rng.random() < 0.6 else Fraction(1, 2 ** 47))
+        im = Fraction(rng.randrange(-16, 17), 8) * (Fraction(1, 2 ** 47) if imtiny else sc)
     return re, im
+
+
+def _is_double(f):
+    return Fraction(float(f)) == f
+
+
+def _exact_in_doubles(t):
+    """every coefficient of the task is a double, and for a constant operator so is every partial sum (left to
+    right, real and imaginary parts apart) – the oracle and the model compute in exact rationals"""
+    re = im = Fraction(0)
+    const = all(not term["ops"] for term in t["op"])
+    for term in t["op"]:
+        a, b = unrat(term["c"][0]), unrat(term["c"][1])
+        if not (_is_double(a) and _is_double(b)):
+            return False
+        re, im = re + a, im + b
+        if const and not (_is_double(re) and _is_double(im)):
+            return False
+    return True
+
+
+def _case_exact_in_doubles(c):
+    subs = c["steps"] if c["kind"] == "session" else [c]
+    return all(_exact_in_doubles(t) for sub in subs for t in sub["tasks"])
 
 
 def _hash_twin(c):
@@ -515,6 +591,7 @@ def _hash_twin(c):
 
 def _rand_ising_op(rng, n, wide=False, profile="n", zeros=False, twins=False):
     terms = []
+    imtiny = rng.random() < 0.4
     for _ in range(rng.randrange(1, 5)):
         k = rng.randrange(1, n + 1)
         qs = rng.sample(range(n), k)  # insertion order of the term's dict is random
@@ -522,16 +599,16 @@ def _rand_ising_op(rng, n, wide=False, profile="n", zeros=False, twins=False):
             qs = sorted(qs)
         if wide and rng.random() < 0.7:
             qs = sorted(set(qs) | {n + rng.randrange(0, 3)})
-        re, im = _rand_coeff(rng, True, profile, zeros)
+        re, im = _rand_coeff(rng, True, profile, zeros, imtiny)
         terms.append(_term(re, [(q, "Z") for q in qs], im))
     if rng.random() < 0.3:  # a constant term inside a non-constant operator
-        re, im = _rand_coeff(rng, True, profile, zeros)
+        re, im = _rand_coeff(rng, True, profile, zeros, imtiny)
         terms.insert(rng.randrange(len(terms) + 1), _term(re, [], im))
     if rng.random() < 0.15:  # an unsimplified duplicate
         terms.append(dict(rng.choice(terms)))
     if twins and rng.random() < 0.3:
         # the same support again with a coefficient that differs but has the same hash (values are never summed here)
-        src = rng.choice(terms)
+        src = rng.choice([x for x in terms if x["ops"]])
         if rng.random() < 0.5:
             src["c"] = [rng.choice([-1, -2]), 0]
         if unrat(src["c"][0]) != 0:
@@ -539,20 +616,50 @@ def _rand_ising_op(rng, n, wide=False, profile="n", zeros=False, twins=False):
     return terms
 
 
-def _rand_pauli_op(rng, n, zeros=False):
+def _aligned_letters(circ):
+    """per qubit the Pauli letter whose expectation is +-1 after the one-qubit gates on that qubit (None if there is
+    none): choosing these letters makes the value of a term non-zero, so that a misplaced factor shows"""
+    import numpy as np
+    out = []
+    paulis = {"X": np.array([[0, 1], [1, 0]], dtype=complex), "Y": np.array([[0, -1j], [1j, 0]], dtype=complex),
+              "Z": np.array([[1, 0], [0, -1]], dtype=complex)}
+    for q in range(circ["n"]):
+        v = np.array([1, 0], dtype=complex)
+        for g in circ["gates"]:
+            if not isinstance(g[1], list) and g[1] == q and (g[0] in FIXED or (g[0] in PARAM and g[2] is not None and not g[2]["terms"])):
+                v = np.array(_gate_matrix(g), dtype=complex) @ v
+        best = None
+        for letter, mat in paulis.items():
+            if abs(abs(np.vdot(v, mat @ v)) - 1) < 1e-9:
+                best = letter
+        out.append(best)
+    return out
+
+
+def _rand_pauli_op(rng, n, zeros=False, aligned=None):
     terms = []
     for _ in range(rng.randrange(1, 4)):
-        qs = sorted(rng.sample(range(n), rng.randrange(0, n + 1)))
+        qs = rng.sample(range(n), rng.randrange(0, n + 1))  # the listed order is the insertion order of the term
+        if rng.random() < 0.6:
+            qs = sorted(qs)
         re, im = _rand_coeff(rng, True, "n", zeros)
-        terms.append(_term(re, [(q, rng.choice("XYZ")) for q in qs], im))
+        whole = aligned is not None and rng.random() < 0.5  # every factor aligned: the term's value is +-coefficient
+        ops = []
+        for q in qs:
+            p = rng.choice("XYZ")
+            if aligned is not None and aligned[q] and (whole or rng.random() < 0.5):
+                p = aligned[q]
+            ops.append((q, p))
+        terms.append(_term(re, ops, im))
     return terms
 
 
 def _rand_const_op(rng, profile="n", zeros=False):
     k = rng.choice([0, 1, 1, 2, 3])
     out = []
+    imtiny = rng.random() < 0.4
     for _ in range(k):
-        re, im = _rand_coeff(rng, True, profile, zeros)
+        re, im = _rand_coeff(rng, True, profile, zeros, imtiny)
         out.append(_term(re, [], im))
     return out
 
@@ -663,7 +770,8 @@ def _sibling(rng, t, nmax, ising=True):
         c0 = unrat(term["c"][0])
         # 2^-30 is below every tolerance of ==, hash and np.isclose; 2^-24 is visible at the 1e-9 of the exact values
         eps = Fraction(rng.choice([1, -1, 3]), 2 ** (30 if ising and rng.random() < 0.5 else 24))
-        eps *= abs(c0) if abs(c0) >= 1024 else 1  # stays exact in doubles
+        if abs(c0) >= 1024:  # relative to the magnitude, by a power of two: repeated steps stay exact in doubles
+            eps *= 2 ** (abs(c0).numerator.bit_length() - abs(c0).denominator.bit_length())
         term["c"][0] = rat(c0 + eps)
     elif mv == "coef-twin":  # same hash, different value (only where values are exact: basis states, no sums)
         term = rng.choice([x for x in op if x["ops"]])
@@ -708,6 +816,8 @@ def _sibling(rng, t, nmax, ising=True):
     elif mv == "shots":
         if s["shots"] is not None or not _is_const(s):
             s["shots"] = rng.choice([0, 1, 2, _rand_shots(rng)])
+    if not _exact_in_doubles(s):  # e.g. dropping the last Z term left a constant sum that is not a double
+        return copy.deepcopy(t)
     return s
 
 
@@ -721,8 +831,9 @@ def _sibling_tasks(rng, nmax, ising=True, kmax=6):
             base["circuit"] = _rand_circuit(rng, base["circuit"]["n"], basis=True)
         base.pop("num", None)
     else:
-        base = _maybe_term(rng, _rand_pauli_op(rng, n))
-        base["circuit"] = _rand_circuit(rng, n, basis=rng.random() < 0.3, rich=True)
+        circ = _rand_circuit(rng, n, basis=rng.random() < 0.3, rich=True)
+        base = _maybe_term(rng, _rand_pauli_op(rng, n, aligned=_aligned_letters(circ)))
+        base["circuit"] = circ
         base["shots"] = rng.choice([None, 0, 10])
     tasks = [base]
     for _ in range(rng.randrange(1, kmax)):
@@ -798,6 +909,145 @@ def _exactx_case(rng, nmax):
             g[2]["const"] = rat(unrat(g[2]["const"]) + Fraction(rng.choice([1, -1, 2]), 4))
             tasks[1] = t2
     return {"kind": "exact", "tasks": tasks, "nomodel": True, "share": rng.choice(["none", "ops", "both"])}
+
+
+def _mixed_support(rng, n, k):
+    """k distinct qubits of an n-qubit register (n >= 9) that mix indices below 8 with indices >= 8 (where the
+    iteration order of a Python set of ints stops being ascending, and where indices get two digits), listed in a
+    random order"""
+    k = max(1, min(k, n))
+    qs = set()
+    if k >= 2:
+        qs = {rng.randrange(8, n), rng.randrange(0, 8)}
+    while len(qs) < k:
+        qs.add(rng.randrange(n))
+    qs = list(qs)
+    r = rng.random()
+    if r < 0.3:
+        qs.sort()
+    elif r < 0.5:
+        qs.sort(reverse=True)
+    else:
+        rng.shuffle(qs)
+    return qs
+
+
+def _mixed_op(rng, n, letters, aligned=None):
+    """1-4 terms on 1-6 qubits mixing low and high indices, sometimes a constant / a repeated string;
+    aligned: per qubit the letter whose expectation is +-1 in the prepared state (used for half of the factors so
+    that values are not all 0)"""
+    terms = []
+    for _ in range(rng.randrange(1, 5)):
+        k = rng.choice([1, 2, 2, 2, 3, 3, 4, 4, 5, 6])
+        qs = _mixed_support(rng, n, k)
+        special = [q for q in range(n) if aligned is not None and aligned[q] in ("X", "Y") and aligned[q] in letters]
+        if special and rng.random() < 0.6:  # mixed letters with a non-zero value: include a qubit prepared along X / Y
+            q = rng.choice(special)
+            if q not in qs:
+                qs.insert(rng.randrange(len(qs) + 1), q)
+        re, im = _rand_coeff(rng, True, "n", zeros=True)
+        whole = aligned is not None and rng.random() < 0.6
+        ops = []
+        for q in qs:
+            p = rng.choice(letters)
+            if aligned is not None and aligned[q] and aligned[q] in letters and (whole or rng.random() < 0.5):
+                p = aligned[q]
+            ops.append((q, p))
+        terms.append(_term(re, ops, im))
+    if rng.random() < 0.25:
+        re, im = _rand_coeff(rng)
+        terms.insert(rng.randrange(len(terms) + 1), _term(re, [], im))
+    if rng.random() < 0.25:  # the same string again (other coefficient, factors listed in another order)
+        src = rng.choice(terms)
+        ops = [tuple(o) for o in src["ops"]]
+        rng.shuffle(ops)
+        terms.append(_term(_rand_coeff(rng, False)[0], ops))
+    return terms
+
+
+def _wide_exact_case(rng):
+    """exact values on registers of 9..14 qubits (numpy-backed simulator subclass, oracle only): basis states and
+    simple product / lightly entangled states from a handful of gates; operators mixing qubit indices < 8 and >= 8
+    in every insertion order and through every constructor"""
+    tasks = []
+
+    def width():
+        return rng.randrange(9, 13) if rng.random() < 0.8 else rng.randrange(13, 15)
+    n = width()
+    for _ in range(rng.randrange(1, 4)):
+        if rng.random() < 0.3:
+            n = width()
+        gates = []
+        style = rng.choice(["basis", "basis", "product", "entangled"])
+        for q in rng.sample(range(n), rng.randrange(1, 6)):
+            gates.append(["X", q])
+        if style != "basis":
+            for q in rng.sample(range(n), rng.randrange(1, 4)):
+                if rng.random() < 0.6:
+                    gates.append(["H", q])
+                    if rng.random() < 0.3:
+                        gates.append(["S", q])  # prepared along Y
+                else:
+                    gates.append(["RY", q, {"const": rat(Fraction(rng.choice([1, 2, -3, 5]), 4)), "terms": []}])
+        if style == "entangled":
+            for _ in range(rng.randrange(1, 3)):
+                a, b = rng.sample(range(n), 2)
+                gates.append(["CNOT", [a, b]])
+        aligned = _aligned_letters(_circ(n, gates))
+        for g in gates:
+            if g[0] == "CNOT":
+                aligned[g[1][0]] = aligned[g[1][1]] = None
+        t = _maybe_term(rng, _mixed_op(rng, n, "XYZ" if rng.random() < 0.6 else "Z", aligned))
+        t["circuit"], t["shots"] = _circ(n, gates), rng.choice([None, 0, 10])
+        t["build"] = rng.choice(["dict", "str", "iter"])
+        if n >= 11:
+            # factors listed in ascending order on the wider registers: a library that pads in the listed order would
+            # build matrices of up to 2^(2n) entries there (listed-order effects are exercised at 9 and 10 qubits)
+            for term in t["op"]:
+                term["ops"].sort()
+        tasks.append(t)
+    c = {"kind": "exact", "tasks": tasks, "nomodel": True, "sim": "numpy", "share": rng.choice(["none", "ops", "both"])}
+    if rng.random() < 0.3:
+        c["again"] = True
+    return c
+
+
+def _wide_pipeline_case(rng):
+    """the parameter-scan pipeline on 9..12 qubits: rotations by integer multiples of pi on a few low and high qubits"""
+    syms = ["a", "b", "c"]
+    n, k = rng.randrange(9, 13), rng.randrange(2, 5)
+
+    def circuit():
+        gates = []
+        for q in sorted(_mixed_support(rng, n, rng.randrange(2, 5))):
+            if rng.random() < 0.75:
+                ss = rng.sample(syms, rng.randrange(1, 3))
+                gates.append([rng.choice(["RX", "RY", "RX", "RZ"]), q,
+                              {"const": rng.choice([0, 0, 1]), "terms": sorted([s2, rng.choice([1, 1, 2, 3, -1])] for s2 in ss)}])
+            else:
+                gates.append(["X", q])
+        return _circ(n, gates)
+    shared = rng.random() < 0.6
+    c0 = circuit()
+    tasks = []
+    for _ in range(k):
+        t = _maybe_term(rng, _mixed_op(rng, n, "Z"))
+        t["shots"] = rng.choice([0, 1, 2, 5])
+        t["circuit"] = c0 if shared else circuit()
+        t["build"] = rng.choice(["dict", "str", "iter"])
+        tasks.append(t)
+    maps = [[[s2, rng.randrange(-3, 4)] for s2 in syms]]
+    while len(maps) < k:
+        m = [list(e) for e in maps[-1]]
+        if rng.random() < 0.6:
+            e = rng.choice(m)
+            e[1] = e[1] + rng.choice([1, -1, 3])
+        else:
+            i, j = rng.sample(range(len(m)), 2)
+            m[i][1], m[j][1] = m[j][1], m[i][1]
+        maps.append(m)
+    return {"kind": "pipeline", "seed": rng.randrange(2 ** 31), "tasks": tasks, "maps": maps, "pi": True,
+            "sim": "numpy", "share": "circuits" if shared else "none"}
 
 
 def _pipeline_case(rng, nmax):
@@ -972,8 +1222,13 @@ def _wide_case(rng, band=None):
             op.append(_term(rng.randrange(-4, 5) or 1, [(q, "Z") for q in qs]))
             if rng.random() < 0.5:  # the mirrored support (qubit q <-> n-1-q)
                 op.append(_term(rng.randrange(1, 5), [(n - 1 - q, "Z") for q in qs]))
+        if n >= 9 and rng.random() < 0.7:
+            op.append(_term(rng.randrange(1, 5), [(q, "Z") for q in _mixed_support(rng, n, rng.randrange(2, 5))]))
         rng.shuffle(op)
-        tasks.append({"op": op, "circuit": _circ(n, [["X", q] for q in flips]), "shots": rng.randrange(1, 9)})
+        t = {"op": op, "circuit": _circ(n, [["X", q] for q in flips]), "shots": rng.randrange(1, 9)}
+        if rng.random() < 0.5:
+            t["build"] = rng.choice(["str", "iter"])
+        tasks.append(t)
     return {"kind": "averaging", "tasks": tasks, "seed": 0, "runner": "stub"}
 
 
@@ -999,12 +1254,16 @@ def generate(rng, tier):
         tasks = []
         for _ in range(k):
             n = rng.randrange(1, nmax + 1)
-            op = _rand_pauli_op(rng, n, zeros=True) if rng.random() < 0.75 else _rand_ising_op(rng, n, wide=rng.random() < 0.3)
+            circ = _rand_circuit(rng, n, basis=rng.random() < 0.3, rich=True)
+            op = _rand_pauli_op(rng, n, zeros=True, aligned=_aligned_letters(circ)) if rng.random() < 0.75 \
+                else _rand_ising_op(rng, n, wide=rng.random() < 0.3)
             if rng.random() < 0.1:
                 op = _rand_const_op(rng)
             t = _maybe_term(rng, op)
-            t["circuit"] = _rand_circuit(rng, n, basis=rng.random() < 0.3, rich=True)
+            t["circuit"] = circ
             t["shots"] = rng.choice([None, 0, 10])
+            if rng.random() < 0.3:
+                t["build"] = rng.choice(["str", "iter"])
             tasks.append(t)
         c = {"kind": "exact", "tasks": tasks}
         if rng.random() < 0.3:
@@ -1043,7 +1302,12 @@ def generate(rng, tier):
     for _ in range(12 if big else 3):
         cases.append(_long_case(rng))
     cases += _gen_wide(rng, tier)
-    return cases
+    for _ in range(150 if big else 30):
+        cases.append(_wide_exact_case(rng))
+    for _ in range(40 if big else 8):
+        cases.append(_wide_pipeline_case(rng))
+    # safety net: values are compared exactly, so every case must be exact in double precision
+    return [c for c in cases if _case_exact_in_doubles(c)]
 
 
 def _gen_wide(rng, tier):
@@ -1124,11 +1388,12 @@ class _Ctx:
     def __init__(self, c):
         self.pool = _Pool(c.get("share") or ("circuits" if c.get("share_circuits") else None), pi=bool(c.get("pi")))
         self.seed, self.stub = c.get("seed", 0), c.get("runner") == "stub"
+        self.numpy_sim = c.get("sim") == "numpy"
         self._sim = self._rec = None
 
     def sim(self):
         if self._sim is None:
-            self._sim = _lib()[6](seed=self.seed)
+            self._sim = _numpy_simulator(self.seed) if self.numpy_sim else _lib()[6](seed=self.seed)
         return self._sim
 
     def rec(self):
@@ -1556,25 +1821,23 @@ def _np_state(circ):
 
 
 def _quadratic_form(op, psi, n):
-    """Re <psi| A |psi> by acting with each Pauli string on basis states"""
+    """Re <psi| A |psi>: each Pauli string acts on the basis index by bit manipulation
+    (X, Y flip the bit of their qubit; Z and Y contribute (-1)^bit, Y an extra i) – no matrices"""
+    import numpy as np
+    x = np.arange(2 ** n, dtype=np.int64)
     total = 0j
     for term in op:
         coeff = complex(float(unrat(term["c"][0])), float(unrat(term["c"][1])))
-        acc = 0j
-        for x in range(2 ** n):
-            if psi[x] == 0:
-                continue
-            y, ph = x, 1 + 0j
-            for q, p in term["ops"]:
-                bit = (x >> (n - 1 - q)) & 1
-                if p in "XY":
-                    y ^= 1 << (n - 1 - q)
-                if p == "Z":
-                    ph *= -1 if bit else 1
-                if p == "Y":
-                    ph *= -1j if bit else 1j
-            acc += psi[y].conjugate() * ph * psi[x]
-        total += coeff * acc
+        flip, ph = 0, np.ones(2 ** n, dtype=complex)
+        for q, p in term["ops"]:
+            bit = (x >> (n - 1 - q)) & 1
+            if p in "XY":
+                flip |= 1 << (n - 1 - q)
+            if p in "ZY":
+                ph = ph * (1 - 2 * bit)
+            if p == "Y":
+                ph = ph * 1j
+        total += coeff * np.sum(psi[x ^ flip].conjugate() * ph * psi)
     return total.real
 
 
